@@ -101,14 +101,16 @@ package redisemu
 
 // WATCH is refused inside MULTI and changes nothing then
 //@ func fnWatch
-//@ prop C09
+//@ prop C09 C10
 //@ safetyprop none
-//@ requires ctxOK(ctx) && ctx.cs.watches != nil
+//@ requires ctxOK(ctx) && ctx.cs.watches != nil && dscOK(ctx.dsc)
 //@ requires [C08,C16] unlocked: lockMode(ctx.dsc)
 //@ requires !mutated && !bumped && !removedKey
 //@ modifies *
 //@ ensures [C09] refused.in.multi: old(ctx.multi) ==> istype(output.data, respErrorString) && ctx.cs.watches == old(ctx.cs.watches) && ctx.cs.cmdQueue == old(ctx.cs.cmdQueue)
 //@ ensures [C09] queue.kept: ctx.cs.cmdQueue == old(ctx.cs.cmdQueue) && ctx.cs.cmdQueueFailed == old(ctx.cs.cmdQueueFailed)
+// C10: a key that is watched already keeps the version recorded by the first WATCH (watching again must not forget a modification made in between)
+//@ assertbefore "ctx.cs.watches[wk] = id" [C10] first.watch.only: !watched
 
 //@ func parseCommand
 //@ trusted the grammar-driven argument parser: builds a fresh argument table from the command definition and the input values; does not touch connection or store state
